@@ -240,8 +240,18 @@ def b_getattr(I, obj, name, *default):
         raise
 
 
+def b_id(I, v):
+    """id(): an opaque number per object - equal for one object, and not the object (it keeps nothing alive, so a number stored
+    in place of an object can later denote a different one: contracts that want 'the object itself' reject it)"""
+    if isinstance(v, PObj):
+        if '__id_token__' not in v.fields:
+            v.fields['__id_token__'] = PObj('identity-number', fields={'desc': ('id-of', v.cls)})
+        return v.fields['__id_token__']
+    raise Unsupported("id() of %r" % (v,))
+
+
 BUILTINS = {
-    'len': Builtin('len', b_len), 'min': Builtin('min', b_min), 'max': Builtin('max', b_max),
+    'id': Builtin('id', b_id), 'len': Builtin('len', b_len), 'min': Builtin('min', b_min), 'max': Builtin('max', b_max),
     'abs': Builtin('abs', b_abs), 'range': Builtin('range', b_range), 'tuple': Builtin('tuple', b_tuple),
     'list': Builtin('list', b_list), 'any': Builtin('any', b_any), 'all': Builtin('all', b_all),
     'zip': Builtin('zip', b_zip), 'enumerate': Builtin('enumerate', b_enumerate),
